@@ -453,13 +453,13 @@ Theorem C08_keymelody_roundtrip :
 Proof. exact @keymelody_roundtrip. Qed.
 Print Assumptions C08_keymelody_roundtrip.
 
-(** KeyMelody input: exactly input_size entries whenever the call returns (partial: totality on valid melodies is checked by the oracle only). *)
-Theorem C08_keymelody_input_length_partial :
+(** KeyMelody input: exactly input_size entries whenever the call returns, for ANY events (valid or not); totality and block structure for valid melodies: C08_keymelody_input_shape below. *)
+Theorem C08_keymelody_input_length_any :
   forall (min_note note_range : Z) (dists : list Z) (bits : Z) (es : list Z) (p : Z) (v : list Z),
   0 <= km_input_size note_range dists bits ->
   km_input min_note note_range dists bits es p = Some v -> zlen v = km_input_size note_range dists bits.
-Proof. exact @keymelody_input_length_partial. Qed.
-Print Assumptions C08_keymelody_input_length_partial.
+Proof. exact @keymelody_input_length_any. Qed.
+Print Assumptions C08_keymelody_input_length_any.
 
 (** Conditional wrapper: input = control input at p+1 ++ target input at p, sizes add; labels, decoding and num_steps are the target's; encode rejects unequal lengths and otherwise returns len-1 aligned pairs. *)
 Theorem C08_conditional_input :
@@ -712,6 +712,165 @@ Theorem C08_pianoroll_input_shape :
     zlen v = size /\ (forall k : nat, nth k v 0 = (if existsb (Z.eqb (Z.of_nat k)) ev then 1 else 0)).
 Proof. exact @pianoroll_input_shape. Qed.
 Print Assumptions C08_pianoroll_input_shape.
+
+(** KeyMelody input at full strength: for every valid melody and every position the call RETURNS a vector of exactly input_size entries laid out as [pitch cells][playing; silence][attack][ascending][repeat flag per lookback][counter bits][bar start][12 key flags][12 recent-key flags]; the pitch cells are one-hot at the sounding pitch with playing=1 (or all zero with silence=1 - also for pitch 0, which the code treats as falsy); ascending is 0/+1/-1; repeat flags say whether the event repeats the one d steps back; counter bits are +-1 of position+1; each key block has 12 flags of which at least one is set. *)
+Theorem C08_keymelody_input_shape :
+  forall min_note note_range : Z,
+  0 <= min_note ->
+  0 <= note_range ->
+  min_note + note_range <= K_MAX_MELODY_EVENT + 1 ->
+  forall (dists : list Z) (bits : Z),
+  Forall (fun d : Z => 1 <= d) dists ->
+  0 <= bits ->
+  forall (es : list Z) (p : Z),
+  Forall (fun a : Z => km_valid min_note note_range a = true) es ->
+  0 <= p < zlen es ->
+  let sub := km_clean (firstn (Z.to_nat (p + 1)) es) in
+  let s := km_scan sub in
+  exists (head : list Z) (asc : Z) (fs keys1 keys2 : list bool),
+    km_input min_note note_range dists bits es p =
+    Some
+      (head ++
+       [b2z (km_attack s)] ++
+       [asc] ++
+       map b2z fs ++
+       map (counter_bit (p + 1)) (EncDec.zrange bits) ++
+       [b2z ((p + 1) mod K_STEPS_PER_BAR =? 0)] ++ map b2z keys1 ++ map b2z keys2) /\
+    zlen
+      (head ++
+       [b2z (km_attack s)] ++
+       [asc] ++
+       map b2z fs ++
+       map (counter_bit (p + 1)) (EncDec.zrange bits) ++
+       [b2z ((p + 1) mod K_STEPS_PER_BAR =? 0)] ++ map b2z keys1 ++ map b2z keys2) =
+    km_input_size note_range dists bits /\
+    zlen head = note_range + 2 /\
+    ((exists c : Z,
+        km_cur s = Some c /\
+        c <> 0 /\
+        pitch_ok min_note note_range c /\
+        head = onehot note_range (c - min_note) ++ [1; 0] /\
+        is_one_hot (onehot note_range (c - min_note))) \/
+     (km_cur s = None \/ km_cur s = Some 0) /\ head = zeros note_range ++ [0; 1]) /\
+    (asc = 0 \/ asc = 1 \/ asc = -1) /\
+    Forall2 (fun (d : Z) (f : bool) => f = true <-> lb_match Z es p d) dists fs /\
+    Forall (fun x : Z => x = 1 \/ x = -1) (map (counter_bit (p + 1)) (EncDec.zrange bits)) /\
+    zlen keys1 = K_NOTES_PER_OCTAVE /\
+    zlen keys2 = K_NOTES_PER_OCTAVE /\
+    existsb (fun b : bool => b) keys1 = true /\ existsb (fun b : bool => b) keys2 = true.
+Proof. exact @keymelody_input_shape. Qed.
+Print Assumptions C08_keymelody_input_shape.
+
+(** Note-performance input: the concatenation of six one-hot vectors, one per label component, of sizes num_classes[i]: exactly input_size entries, exactly one 1 in each block, at the index of the label component. *)
+Theorem C08_noteperf_input_shape :
+  forall (nvb max_shift max_dur minp maxp : Z) (c : np_cfg),
+  np_cfg_ok c nvb max_shift max_dur minp maxp ->
+  forall (es : list npevent) (p : Z) (e : npevent),
+  0 <= p ->
+  nth_error es (Z.to_nat p) = Some e ->
+  np_valid nvb max_shift max_dur minp maxp e = true ->
+  exists hs : list (list Z),
+    np_input c es p = Some (concat hs) /\
+    zlen (concat hs) = np_input_size c /\
+    hs = map (fun ic : Z * Z => onehot (snd ic) (fst ic)) (combine (np_encode_event c e) (np_classes c)) /\
+    Forall is_one_hot hs /\
+    Forall2 (fun (h : list Z) (m : Z) => zlen h = m) hs (np_classes c) /\
+    Forall2 (fun (h : list Z) (i : Z) => nth (Z.to_nat i) h 0 = 1) hs (np_encode_event c e).
+Proof. exact @noteperf_input_shape. Qed.
+Print Assumptions C08_noteperf_input_shape.
+
+(** Modulo-performance input: COUNT and BLOCK STRUCTURE only (the cos/sin cell values are floats and are tied by correspondence, not modelled): input_size = sum of the encoder widths of the event ranges; the cells written (valid bit + 2 per cos/sin pair: 5 for notes, 3 for shifts / velocities) are exactly the block of the event's own range, inside the vector, and the lookup row is inside the table indexed. *)
+Theorem C08_modulo_input_size_count :
+  forall nb ms : Z,
+  mp_input_size nb ms =
+  zsum (map mp_width K_MODULO_EVENT_RANGES) + K_MODULO_TIME_SHIFT_WIDTH +
+  (if 0 <? nb then K_MODULO_VELOCITY_WIDTH else 0).
+Proof. exact @modulo_input_size_count. Qed.
+Print Assumptions C08_modulo_input_size_count.
+
+Theorem C08_modulo_input_layout :
+  forall (nb ms : Z) (es : list pevent) (p : Z) (e : pevent),
+  0 <= nb ->
+  1 <= ms ->
+  0 <= p ->
+  nth_error es (Z.to_nat p) = Some e ->
+  perf_valid nb ms K_PERF_MIN_PITCH K_PERF_MAX_PITCH (fst e) (snd e) ->
+  exists (off t row : Z) (k : nat) (mn mx : Z),
+    mp_input nb ms es p = Some [mp_input_size nb ms; off; t; row; if t =? 0 then row mod 12 else 0] /\
+    nth_error (mp_ranges nb ms) k = Some (fst e, mn, mx, mp_written t) /\
+    off = zsum (map mp_width (firstn k (mp_ranges nb ms))) /\
+    row = snd e - mn /\
+    0 <= off /\
+    off + mp_written t <= mp_input_size nb ms /\
+    (t = 0 /\ (fst e = EV_NOTE_ON \/ fst e = EV_NOTE_OFF) /\ 0 <= row < 144 \/
+     t = 1 /\ fst e = EV_TIME_SHIFT /\ 0 <= row < ms \/ t = 2 /\ fst e = EV_VELOCITY /\ 0 <= row < nb).
+Proof. exact @modulo_input_layout. Qed.
+Print Assumptions C08_modulo_input_layout.
+
+Example C08_keymelody_input_nonvacuous :
+  forallb (km_valid 60 3) [60; -2; 62; 60] = true /\
+  km_input 60 3 [1; 2] 2 [60; -2; 62; 60] 3 =
+    Some [1; 0; 0; 1; 0; 1; -1; 0; 0; -1; -1; 0; 1; 0; 0; 1; 0; 1; 0; 1; 0;
+          0; 1; 0; 1; 0; 0; 1; 0; 1; 0; 1; 0; 0; 1; 0] /\
+  km_input_size 3 [1; 2] 2 = 36.
+Proof. exact keymelody_input_nonvacuous. Qed.
+Print Assumptions C08_keymelody_input_nonvacuous.
+
+(** default_event_label: an in-range class index that decodes, against any history, to the default event (lookback generic + melody instance, key melody, note performance when pitch 60 is in range, pianoroll). *)
+Theorem C08_lookback_default_label :
+  forall (E : Type) (eqb : E -> E -> bool) (n : Z) (enc : E -> option Z) (dec : Z -> option E)
+    (dflt : E) (dists : list Z),
+  (forall a b : E, eqb a b = true <-> a = b) ->
+  forall valid : E -> Prop,
+  (forall e : E, valid e -> exists c : Z, enc e = Some c /\ 0 <= c < n /\ dec c = Some e) ->
+  forall evs : list E,
+  valid dflt ->
+  exists c : Z,
+    lb_default_label E enc dflt = Some c /\
+    0 <= c < lb_num_classes n dists /\ lb_decode E n dec dflt dists c evs = Some dflt.
+Proof. exact @lookback_default_label. Qed.
+Print Assumptions C08_lookback_default_label.
+
+Theorem C08_lookback_melody_default_label :
+  forall (mn mx : Z) (ds : list Z) (bits : Z),
+  mel_cfg_ok mn mx = true ->
+  forall evs : list Z,
+  exists c : Z,
+    lb_mel_default_label mn mx = Some c /\
+    0 <= c < mel_num_classes mn mx + zlen ds /\
+    ed_decode (lb_mel mn mx ds bits) c evs = Some MELODY_NO_EVENT.
+Proof. exact @lookback_melody_default_label. Qed.
+Print Assumptions C08_lookback_melody_default_label.
+
+Theorem C08_keymelody_default_label :
+  forall (min_note note_range : Z) (dists evs : list Z),
+  0 <= note_range ->
+  0 <= km_default_label note_range < km_num_classes note_range dists /\
+  km_decode min_note note_range dists (km_default_label note_range) evs = Some K_NO_EVENT.
+Proof. exact @keymelody_default_label. Qed.
+Print Assumptions C08_keymelody_default_label.
+
+Theorem C08_noteperf_default_label :
+  forall (nvb max_shift max_dur minp maxp : Z) (c : np_cfg),
+  np_cfg_ok c nvb max_shift max_dur minp maxp ->
+  K_PERF_MIN_PITCH <= minp ->
+  maxp <= K_PERF_MAX_PITCH ->
+  nvb <= K_MAX_NUM_VELOCITY_BINS ->
+  forall hist : list npevent,
+  minp <= 60 <= maxp ->
+  1 <= nvb ->
+  in_ranges (np_default_label c) (np_classes c) /\
+  np_decode c (np_default_label c) hist = Some np_default_event.
+Proof. exact @noteperf_default_label. Qed.
+Print Assumptions C08_noteperf_default_label.
+
+Theorem C08_pianoroll_default_label :
+  forall size : Z,
+  0 <= size ->
+  forall hist : list (list Z),
+  0 <= pr_default_label < pr_num_classes size /\ pr_decode size pr_default_label hist = Some [].
+Proof. exact @pianoroll_default_label. Qed.
+Print Assumptions C08_pianoroll_default_label.
 
 (** Non-vacuity: concrete configurations, sequences, labels and round trips (the docstring example of the lookback encoder). *)
 Example C08_lookback_instances_nonvacuous :
